@@ -184,6 +184,12 @@ func lenOf(x ssa.Value, depth int) lin {
 	if k, ok := arrayLen(x.Type()); ok {
 		return linConst(k)
 	}
+	// every load of a package-level slice that is only assigned by its initialiser has the same length
+	if u, ok := x.(*ssa.UnOp); ok && u.Op == token.MUL {
+		if g, ok := u.X.(*ssa.Global); ok && frozenGlobal(g) {
+			return linTerm(lterm{v: g, isLen: true})
+		}
+	}
 	return linTerm(lterm{v: x, isLen: true})
 }
 
